@@ -720,6 +720,9 @@ def run(ctx: Ctx) -> None:
     ctx.trust('bulk analysis: coordinates are far from every boundary; boundary truncation is delegated to '
               'is_stabilizer/is_qubit filters (checked to be present), seams to the wrap-agreement rule',
               'StabilizerCode.site multiplies Paulis (product table decided in C03 R03.2)')
-    _r101_102(ctx)
-    _r103_104(ctx)
-    _r105(ctx)
+    with ctx.part():
+        _r101_102(ctx)
+    with ctx.part():
+        _r103_104(ctx)
+    with ctx.part():
+        _r105(ctx)
